@@ -11,7 +11,7 @@ import (
 
 func init() { items = append(items, emitC08) }
 
-func (t *tr) evalInt(e ast.Expr, what string) (string, bool) {
+func (t *tr) c08EvalInt(e ast.Expr, what string) (string, bool) {
 	v, err := t.eval(e, 0)
 	if err != nil {
 		t.errf("%s: %v", what, err)
@@ -58,7 +58,7 @@ func emitC08(t *tr) {
 			default:
 				return true
 			}
-			if s, ok := t.evalInt(factor, "staleness factor"); ok {
+			if s, ok := t.c08EvalInt(factor, "staleness factor"); ok {
 				t.p("Definition lock_stale_factor : Z := (%s)%%Z. (* fileLockIsStale: time.Since(ref) > lockFreshnessInterval*%s *)\n", s, s)
 				found = true
 			}
@@ -80,12 +80,12 @@ func emitC08(t *tr) {
 			switch x := n.(type) {
 			case *ast.IfStmt:
 				if be, ok := x.Cond.(*ast.BinaryExpr); ok && be.Op == token.LSS && exprStr(be.X) == "emptyCount" {
-					if s, ok := t.evalInt(be.Y, "empty retry count"); ok {
+					if s, ok := t.c08EvalInt(be.Y, "empty retry count"); ok {
 						retries = s
 					}
 					ast.Inspect(x.Body, func(m ast.Node) bool {
 						if c, ok := m.(*ast.CallExpr); ok && exprStr(c.Fun) == "time.After" && len(c.Args) == 1 {
-							if s, ok := t.evalInt(c.Args[0], "empty retry sleep"); ok {
+							if s, ok := t.c08EvalInt(c.Args[0], "empty retry sleep"); ok {
 								sleep = s
 							}
 						}
